@@ -47,6 +47,26 @@ def _probe(repo):
         import shutil
         shutil.rmtree(d, ignore_errors=True)
     kv = dict(re.findall(r"(\w+)=(-?\d+)", out))
+    # second stage: the IsArithmetic<T> trait (absent before commit 8a61870: then no byte-order test refers to it)
+    src2 = "#include <stdio.h>\n#include <asl/String.h>\nusing namespace asl;\nint main(){\n"
+    for t in TYPES:
+        src2 += 'printf("arith_%s=%%d\\n", (int)IsArithmetic<%s>::value);\n' % (t, CTYPE[t])
+    src2 += 'printf("arith_string=%d\\n", (int)IsArithmetic<String>::value);\nreturn 0;}\n'
+    d = tempfile.mkdtemp(prefix="c16gen")
+    try:
+        cpp = os.path.join(d, "q.cpp")
+        exe = os.path.join(d, "q")
+        open(cpp, "w").write(src2)
+        p = subprocess.run(["g++", "-std=c++11", "-DASL_VERIF", "-DASL_STATIC", "-w", "-I", os.path.join(repo, "include"), cpp, "-o", exe],
+                           stdout=subprocess.PIPE, stderr=subprocess.STDOUT)
+        if p.returncode == 0:
+            kv.update(dict(re.findall(r"(\w+)=(-?\d+)", subprocess.run([exe], stdout=subprocess.PIPE).stdout.decode())))
+            kv["has_arith"] = "1"
+        else:
+            kv["has_arith"] = "0"
+    finally:
+        import shutil
+        shutil.rmtree(d, ignore_errors=True)
     need = ["other", "big", "little", "native", "hostlittle", "firstbyte"] + ["sizeof_" + t for t in TYPES]
     for k in need:
         if k not in kv:
@@ -68,6 +88,15 @@ def _cond(text, what):
         raise TranslateError("%s: unrecognised byte-order condition `%s`" % (what, text.strip()))
     rhs = "otherEndian" if m.group(2) == "ASL_OTHER_ENDIAN" else "Endian." + ENDIANS[m.group(2)]
     return "(e %s %s)" % ("==" if m.group(1) == "==" else "!=", rhs)
+
+
+def _acond(text, what):
+    """byte-order test of an Array<T> overload: `<order test>` or `<order test> || !IsArithmetic<T>::value`
+    -> Lean Bool expression in `e` and `arith` (is the element type a built-in arithmetic type)"""
+    m = re.fullmatch(r"(.*?)\|\|\s*!\s*IsArithmetic<T>::value\s*", text, re.S)
+    if m:
+        return "(%s || !arith)" % _cond(m.group(1), what)
+    return _cond(text, what)
 
 
 def _count(text, what):
@@ -115,7 +144,20 @@ def _array_template(body, what):
     m1 = re.search(r"if\s*\((.*?)\)\s*\{\s*foreach\s*\(\s*const\s+T&\s*y\s*,\s*x\s*\)\s*\*this\s*<<\s*y;\s*\}\s*else\s+write\(\s*&x\[0\]\s*,(.*?)\);\s*return\s+\*this;", b, re.S)
     if not m1:
         raise TranslateError(what + ": body of operator<<(const Array<T>&) not recognised: " + " ".join(b.split())[:200])
-    return _cond(m1.group(1), what), _count(m1.group(2), what)
+    return _acond(m1.group(1), what), _count(m1.group(2), what)
+
+
+def _rarray_template(body, what):
+    """`template<class T> X& operator>>(Array<T>& x)` of File / Socket (added by commit cdda882)"""
+    m = re.search(r"template\s*<\s*class\s+T\s*>\s*\w+&\s*operator>>\s*\(\s*Array<T>&\s*x\s*\)\s*\{(.*?)\n\t\}", body, re.S)
+    if not m:
+        raise TranslateError(what + ": operator>>(Array<T>&) not found (the generic operator>>(T&) would read raw bytes over the Array object)")
+    b = m.group(1)
+    m1 = re.search(r"if\s*\((.*?)\)\s*\{\s*for\s*\(\s*int\s+i\s*=\s*0;\s*i\s*<\s*x\.length\(\);\s*i\+\+\s*\)\s*\*this\s*>>\s*x\[i\];\s*\}\s*"
+                   r"else\s+read\(\s*&x\[0\]\s*,(.*?)\);\s*return\s+\*this;", b, re.S)
+    if not m1:
+        raise TranslateError(what + ": body of operator>>(Array<T>&) not recognised: " + " ".join(b.split())[:200])
+    return _acond(m1.group(1), what), _count(m1.group(2), what)
 
 
 def _raw_overloads(body, cls, what):
@@ -235,11 +277,16 @@ def translate(repo):
     if not re.fullmatch(r"\{\s*T\s+y\s*=\s*x;\s*swapBytes\(y\);\s*return\s+y;\s*\}", bsw):
         raise TranslateError("bytesSwapped: body not recognised")
 
+    L.append("/-- `IsArithmetic<T>::value` as reported by the compiler (defs.h; `true` where the trait does not exist yet) -/")
+    L.append("def arithT : Ty → Bool\n" + "\n".join("  | .%s => %s" % (t, "true" if pr.get("arith_" + t, 1) else "false") for t in TYPES))
+    L.append("/-- `IsArithmetic<String>::value` -/")
+    L.append("def arithString : Bool := %s\n" % ("true" if pr.get("arith_string", 0) else "false"))
+
     # StreamBuffer
     L.append("/-! StreamBuffer (writer) -/")
     L.append("def sbSwap (e : Endian) : Bool := %s" % _writer_template(sb, "StreamBuffer::operator<<(const T&)"))
     c, n = _array_template(sb, "StreamBuffer::operator<<(const Array<T>&)")
-    L.append("def sbArraySwap (e : Endian) : Bool := %s" % c)
+    L.append("def sbArraySwap (e : Endian) (arith : Bool) : Bool := %s" % c)
     L.append("def sbArrayCount (len size : Nat) : Nat := %s" % n)
     m = re.search(r"StreamBuffer\(\s*Endian\s+e\s*=\s*(ENDIAN_\w+)\s*\)\s*:\s*_endian\(e\)", sb)
     if not m or m.group(1) not in ENDIANS:
@@ -290,8 +337,16 @@ def translate(repo):
     L.append("def fileWSwap (e : Endian) : Bool := %s" % _writer_template(fb, "File::operator<<(const T&)"))
     L.append("def fileRSwap (e : Endian) : Bool := %s" % _reader_template(fb, "File::operator>>(T&)"))
     c, n = _array_template(fb, "File::operator<<(const Array<T>&)")
-    L.append("def fileArraySwap (e : Endian) : Bool := %s" % c)
+    L.append("def fileArraySwap (e : Endian) (arith : Bool) : Bool := %s" % c)
     L.append("def fileArrayCount (len size : Nat) : Nat := %s" % n)
+    c, n = _rarray_template(fb, "File::operator>>(Array<T>&)")
+    L.append("def fileRArraySwap (e : Endian) (arith : Bool) : Bool := %s" % c)
+    L.append("def fileRArrayCount (len size : Nat) : Nat := %s" % n)
+    m = re.search(r"File&\s*operator>>\s*\(\s*String&\s*x\s*\)\s*\{(.*?)\n\t\}", fb, re.S)
+    if not m or not re.fullmatch(r"\s*int\s+n\s*=\s*0;\s*\*this\s*>>\s*n;\s*x\.clear\(\);\s*char\s+buf\[(\d+)\];\s*while\s*\(n\s*>\s*0\)\s*\{\s*"
+                                 r"int\s+m\s*=\s*read\(buf,\s*n\s*<\s*\(int\)sizeof\(buf\)\s*\?\s*n\s*:\s*\(int\)sizeof\(buf\)\);\s*if\s*\(m\s*<=\s*0\)\s*break;\s*"
+                                 r"x\.append\(buf,\s*m\);\s*n\s*-=\s*m;\s*\}\s*return\s+\*this;\s*", m.group(1), re.S):
+        raise TranslateError("File::operator>>(String&): body not recognised (bounded block reads of a length-prefixed string expected)")
     inits = re.findall(r"_endian\((\w+)\)", fb)
     ctor = [i for i in inits if i.startswith("ENDIAN_")]
     if len(ctor) < 4 or len(set(ctor)) != 1 or ctor[0] not in ENDIANS:
@@ -303,8 +358,13 @@ def translate(repo):
     L.append("def sockWSwap (e : Endian) : Bool := %s" % _writer_template(sk, "Socket::operator<<(const T&)"))
     L.append("def sockRSwap (e : Endian) : Bool := %s" % _reader_template(sk, "Socket::operator>>(T&)"))
     c, n = _array_template(sk, "Socket::operator<<(const Array<T>&)")
-    L.append("def sockArraySwap (e : Endian) : Bool := %s" % c)
+    L.append("def sockArraySwap (e : Endian) (arith : Bool) : Bool := %s" % c)
     L.append("def sockArrayCount (len size : Nat) : Nat := %s" % n)
+    c, n = _rarray_template(sk, "Socket::operator>>(Array<T>&)")
+    L.append("def sockRArraySwap (e : Endian) (arith : Bool) : Bool := %s" % c)
+    L.append("def sockRArrayCount (len size : Nat) : Nat := %s" % n)
+    if not re.search(r"String\s+readString\(int\s+n\)\s*\{\s*if\s*\(n\s*<\s*0\)\s*n\s*=\s*0;\s*String\s+s\(n,\s*0\);\s*n\s*=\s*read\(&s\[0\],\s*n\);\s*if\s*\(n\s*>=\s*0\)\s*s\[n\]\s*=\s*'\\0';\s*return\s+s\.fix\(\);\s*\}", sk):
+        raise TranslateError("Socket::readString: body not recognised (negative length must be treated as 0)")
     ds = re.findall(r"_endian\s*=\s*(ENDIAN_\w+);", scpp)
     if len(ds) < 2 or len(set(ds)) != 1 or ds[0] not in ENDIANS:
         raise TranslateError("Socket_ constructors: default byte order not uniform: %r" % ds)
@@ -422,11 +482,33 @@ def roundtrip_case(rng, kind, nitems, arr_max=100, p_switch=0.2):
                     total += n * WIDTH[ty]
                 continue
             wl.append(arr_line(rng, ty, n))
-            if rng.random() < 0.25:
+            q = rng.random()
+            if q < 0.2:
                 rl.append("rb %d" % (n * WIDTH[ty]))
+            elif q < 0.6 and kind != "sb":
+                rl.append("ra %s %d" % (ty, n))      # stream >> Array<T> of the same length
             else:
                 rl.extend(["r " + ty] * n)
             total += n * WIDTH[ty]
+        elif r < 0.845:
+            # Array<String>
+            ss = [rbytes(rng, rng.randrange(0, 12)) for _ in range(rng.randrange(0, 6))]
+            wl.append("was" + "".join(" " + hexs(x) for x in ss))
+            rl.append("rb %d" % sum(len(x) for x in ss))
+            total += sum(len(x) for x in ss)
+        elif r < 0.86 and kind == "sb":
+            # the buffer's own bytes written into itself (capped so that the stream stays small)
+            if total <= 600:
+                if rng.random() < 0.5:
+                    wl.append("wself")
+                    rl.append("rb %d" % total)
+                    total *= 2
+                else:
+                    a = rng.randrange(0, total + 1)
+                    n = rng.randrange(0, total - a + 1)
+                    wl.append("wselfpart %d %d" % (a, n))
+                    rl.append("rb %d" % n)
+                    total += n
         elif r < 0.88 and kind != "sb":
             # length-prefixed string, read back with operator>>(String&)
             s = rbytes(rng, rng.randrange(0, 40), nul=(kind == "file"))
@@ -464,8 +546,10 @@ def cross_case(rng, kind):
             rl.append("skip %d" % rng.randrange(0, 6))
         elif r < 0.95:
             rl.append("rb %d" % rng.randrange(0, 12))
-        else:
+        elif r < 0.975:
             rl.append("rs")
+        else:
+            rl.append("ra %s %d" % (rng.choice(TYPES), rng.randrange(0, 6)))
     return wl + rl
 
 
@@ -492,8 +576,11 @@ def array_grid(rng, lengths):
             for o in ORDERS:
                 c = ["new %s %s" % (kind, o)]
                 rd = ["reader " + o]
-                for n in lengths:
+                for i, n in enumerate(lengths):
                     c.append(arr_line(rng, ty, n))
+                    if kind != "sb" and i % 2 == 0:
+                        rd.append("ra %s %d" % (ty, n))
+                        continue
                     rd.extend(["r " + ty] * min(n, 3))
                     if n > 3:
                         rd.append("rb %d" % ((n - 3) * WIDTH[ty]))
@@ -519,11 +606,39 @@ def reuse_grid(rng):
     return cases
 
 
+def special_grid(rng):
+    """Array<String> in every order on every class; a StreamBuffer written into itself at every small size
+    (before and after its storage has grown); hostile and exact length prefixes for File/Socket >> String"""
+    cases = []
+    for kind in KINDS:
+        for o in ["def"] + ORDERS:
+            ss = [b"ab", b"c", b"", rbytes(rng, 30), b"\0x\0"]
+            c = ["new %s %s" % (kind, o), "was " + " ".join(hexs(x) for x in ss), "was", "was -", "w i16 0102",
+                 "was " + hexs(rbytes(rng, 5)), "endian big", "was 6162 63", "endian little", "was 6162 63"]
+            n = sum(len(x) for x in ss) + 2 + 5 + 3 + 3
+            cases.append(c + ["reader " + o, "rb %d" % n, "r u8"])
+    for o in ["def"] + ORDERS:
+        for n0 in list(range(0, 20)) + [31, 32, 33, 63, 64, 65, 127, 128, 129, 255, 256, 257]:
+            c = ["new sb " + o]
+            if n0:
+                c.append("wb " + hexs(rbytes(rng, n0)))
+            c += ["wself", "wselfpart %d %d" % (rng.randrange(0, 2 * n0 + 1), rng.randrange(0, 2 * n0 + 1)), "wself",
+                  "w i32 01020304", "wself"]
+            cases.append(c + ["reader " + o, "rb %d" % (8 * n0 + 8), "rb 100000", "r u8"])
+    for kind in ("file", "sock"):
+        for o in ORDERS:
+            for pre in (0, 1, 3, 5, 0x7fffffff, 0x80000000, 0xffffffff, 0xfffffffe, 0x01000000, 0x00000100):
+                c = ["new %s %s" % (kind, o), "w u32 %08x" % pre, "wb 6162630064", "reader " + o, "rs", "rb 9"]
+                cases.append(c)
+    return cases
+
+
 def gen(rng, tier):
     quick = tier == "quick"
     cases = []
     cases += scalar_grid()
     cases += reuse_grid(rng)
+    cases += special_grid(rng)
     cases += array_grid(rng, [0, 1, 2, 3, 7, 8, 9, 31, 32, 33, 64, 99, 100] if quick else list(range(0, 101)))
     for kind in KINDS:
         for i in range(300 if quick else 4000):
@@ -586,7 +701,8 @@ def distribution(cases):
     d = {"cases_by_class": {}, "ops": {}, "scalar_writes_by_type": {}, "array_writes_by_type": {}, "array_len_hist": {},
          "writes_by_order_in_force": {}, "reads_by_order_in_force": {}, "order_switches_mid_stream": 0, "nan_values": 0,
          "min_max_int_values": 0, "values_per_case_hist": {}, "max_values_in_a_case": 0,
-         "array_variable_writes": {}, "array_rewrites_same_object": 0, "array_rewrites_after_order_switch": 0}
+         "array_variable_writes": {}, "array_rewrites_same_object": 0, "array_rewrites_after_order_switch": 0,
+         "string_array_writes_by_order": {}, "self_writes": 0, "array_reads_by_order_in_force": {}}
     for c in cases:
         kind = None
         we = re_ = None
@@ -630,6 +746,14 @@ def distribution(cases):
                 d["array_len_hist"][b] = d["array_len_hist"].get(b, 0) + 1
             elif op in ("ws", "wb", "wz"):
                 nvals += 1
+            elif op == "was":
+                nvals += 1
+                d["string_array_writes_by_order"][we] = d["string_array_writes_by_order"].get(we, 0) + 1
+            elif op in ("wself", "wselfpart"):
+                nvals += 1
+                d["self_writes"] += 1
+            elif op == "ra":
+                d["array_reads_by_order_in_force"][re_] = d["array_reads_by_order_in_force"].get(re_, 0) + 1
             elif op == "av":
                 slots[int(t[1]) % 4] = [t[2], 0, None]
             elif op == "wv":
@@ -714,6 +838,25 @@ def _reference(line):
                 dump += v.to_bytes(w, "big")      # the program's array keeps its values
             s["out"] += b
             return hexs(b) + " " + hexs(dump)
+        if op in ("wself", "wselfpart"):
+            if s["reading"]:
+                return "closed"
+            if s["kind"] != "sb":
+                return "na"
+            if op == "wself":
+                b = s["out"]
+            else:
+                a = int(t[1]) % (len(s["out"]) + 1)
+                n = int(t[2]) % (len(s["out"]) - a + 1)
+                b = s["out"][a:a + n]
+            s["out"] += b
+            return hexs(b)
+        if op == "was":
+            if s["reading"]:
+                return "closed"
+            b = b"".join(unhex(x) for x in t[1:])     # an array of strings is the strings' bytes, whatever the byte order
+            s["out"] += b
+            return hexs(b)
         if op in ("w", "wa", "wb", "ws", "wz"):
             if s["reading"]:
                 return "closed"
@@ -763,18 +906,40 @@ def _reference(line):
                 v = 1 if v else 0
             s["rest"] = s["rest"][w:]
             return "%0*x" % (2 * w, v)
+        if op == "ra":
+            ty = t[1]
+            w = WIDTH[ty]
+            n = int(t[2])
+            if s["kind"] == "sb":
+                return "na"
+            if len(s["rest"]) < n * w:
+                return "eof"
+            if ty == "b" and any(c > 1 for c in s["rest"][:n]):
+                return "na-bool"
+            vals = b"".join(int.from_bytes(s["rest"][i * w:(i + 1) * w], _order(s["re"])).to_bytes(w, "big") for i in range(n))
+            s["rest"] = s["rest"][n * w:]
+            return hexs(vals)
+        if op == "rsame":
+            return None
         if op in ("rb", "skip"):
             n = int(t[1]) % (len(s["rest"]) + 1)
             b = s["rest"][:n]
             s["rest"] = s["rest"][n:]
             return hexs(b) if op == "rb" else "ok"
         if op == "rs":
-            # no standard meaning: leave it to the model, but keep the position in step when it is well formed
+            # a length-prefixed string; on anything else there is no standard meaning: no opinion, but keep the position in step
             if s["kind"] == "sb" or len(s["rest"]) < 4:
                 return "na"
             n = int.from_bytes(s["rest"][:4], _order(s["re"]))
-            if n >= 1 << 31 or n > len(s["rest"]) - 4:
-                return "na"
+            left = len(s["rest"]) - 4
+            if n >= 1 << 31:
+                s["rest"] = s["rest"][4:]
+                return None
+            if n > left:
+                if s["kind"] == "sock":
+                    return "na"
+                s["rest"] = b""
+                return None
             b = s["rest"][4:4 + n]
             s["rest"] = s["rest"][4 + n:]
             if s["kind"] == "sock" and 0 in b:
@@ -809,12 +974,19 @@ RULE = ("case = one stream object (StreamBuffer+StreamBufferReader | File | Sock
         "scalars (12 C++ types, arbitrary bit patterns incl. NaN payloads, min/max), Array<T> of 0..100 elements (also one Array object written "
         "repeatedly, with and without a switch in between; the caller's array is dumped after every such write and must be unchanged), String/ByteArray/"
         "const char*, with byte-order switches (BIG/LITTLE/NATIVE/default) at random points; every write prints the bytes it appended "
-        "(observed outside asl); then a reader over everything written reads the same types back in the same orders (or unrelated "
+        "(observed outside asl); also Array<String>, a StreamBuffer written into itself (whole and a slice), exact and hostile int32 length prefixes "
+        "before >> String; then a reader over everything written reads the same types back in the same orders, File/Socket arrays also with >> Array<T> (or unrelated "
         "types/orders in the cross cases). non-trivial = distinct case that writes at least one multi-byte value and reads a scalar")
 
 EXHAUSTIVE = {"quick": "every type x {default,BIG,LITTLE,NATIVE} x {StreamBuffer,File,Socket} on the special values (0, 1, -1, min, max, NaN payloads...) with a mid-stream switch; "
                        "Array<T> for every type x order x class at lengths 0,1,2,3,7,8,9,31,32,33,64,99,100",
               "thorough": "the same scalar grid; Array<T> for every type x order x class at every length 0..100"}
+
+KNOWN = [{"key": "string-read-not-inverse",
+          "desc": "File/Socket operator>>(String&) is not the inverse of operator<<(const String&)",
+          "case": ["new file native", "ws 68656c6c6f20776f726c64", "reader native", "rsame 68656c6c6f20776f726c64"]}]
+# excluded input class (exactly): `>> String` applied to bytes written by `<< String` with the expectation of getting the
+# string back (op `rsame`, never generated).  `rs` on arbitrary bytes (incl. hostile lengths) IS generated and modelled.
 
 TRUSTED = ["tools/props/c16.py translate(): regex extraction (byte-order test of every operator<< / operator>>, byte count of the "
            "non-swapping Array<T> branch, shift/index terms and _ptr advance of read2/4/8, readN dispatch of the operator>> overloads, the index expression of swapBytes, "
@@ -840,6 +1012,9 @@ LEVEL_TEXT = ("Proved in Lean 4 for all three classes, all 12 scalar types, all 
               "(scalar_read_spec, for arbitrary data), read2/4/8 index only inside the bytes they consume; reading the same types in the same "
               "orders returns the original values and leaves the rest untouched for one value (get_put) and for whole histories (read_back); "
               "writing the same array again, also after a switch, gives its canonical bytes again (array_rewrite_canonical); "
+              "Array<String> appends the strings' bytes in every order and never object memory (string_array_canonical); File/Socket >> Array<T> "
+              "(length set by the caller) is the inverse of << Array<T> for every type, order and length, item-by-item and one-block branch alike (array_get_put); "
+              "File >> String on arbitrary data returns only bytes that are there, the empty string for a negative length (string_read_total); "
               "length-prefixed strings read back (string_read_back). The two switch theorems and the raw-byte cases of read_back hold by the shape "
               "of the model (setEndian writes/reads no byte; ByteArray/String/const char* writes are the bytes themselves; read(n)/skip are take/drop): "
               "likewise a model write cannot alter its argument (it returns only the new order and the bytes): that the real operator<< leaves the "
@@ -854,4 +1029,8 @@ LEVEL_NOTE = ("Trusted: Lean kernel, the regex translator + compiler probe, the 
               "only on a little-endian host: obligation gen_reader_cond fails on a big-endian build. Only K-validated (no theorem): which C++ overload "
               "is selected per type (the bodies of StreamBuffer's bool/byte/char overloads, of the ByteArray/Array<byte>/String/const char* overloads, of File/Socket >> char/byte and of StreamBufferReader::read(n)/skip are shape-checked by the translator, TranslateError otherwise), setEndian taking effect immediately, default byte orders, "
               "skip/read(n), Socket >> String truncation at NUL. Reads past the end and File/Socket >> bool of a byte other than 0/1 are outside the property "
-              "(guarded in the protocol). Fixed defect 264bf86 (Array<T> in native order wrote length() bytes) is kept as a corpus witness.")
+              "(guarded in the protocol). Fixed defects kept as corpus witnesses: 264bf86 (Array<T> in native order wrote length() bytes), fbcbf17 (a StreamBuffer written into itself read freed "
+              "storage), 8a61870 (Array<String> in native order wrote String object memory), e37681a (>> String trusted its length: out-of-bounds write), cdda882 "
+              "(>> Array<T> read raw bytes over the Array object). Known finding string-read-not-inverse: >> String expects an int32 length that << String does not write "
+              "(library format decision; probe `rsame`, printed as KNOWN-FINDING; exactly that expectation is excluded from the generator, `rs` on arbitrary bytes is generated). "
+              "A write of the buffer's own bytes (wself) is modelled as a ByteArray write whose value is the current content.")
